@@ -76,6 +76,17 @@ def run(ctx):
                 out.append(g)
             return out
         variants.append(("short-header", sampler_section_edit(data, short_header)))
+        def beyond(gs):      # vibrato rate / fade-out beyond the library's nominal ranges (the fields are a byte and a 16-bit word)
+            out = []
+            for g in gs:
+                if g[0] == 0:
+                    h = bytearray(g[1][1][1])
+                    h[241] = rnd.choice([64, 200, 255])
+                    h[242:244] = struct.pack("<H", rnd.choice([8193, 40000, 65535]))
+                    g = [0, [g[1][0], (b"CHDT", bytes(h))]]
+                out.append(g)
+            return out
+        variants.insert(rnd.randrange(len(variants) + 1), ("header-beyond-nominal", sampler_section_edit(data, beyond)))
         for name, vd in variants[: (1 if q and i % 3 else 3)]:
             ev = fmt.load_event(vd, spec)
             evs.append(ev)
